@@ -45,26 +45,26 @@ func main() {
 			"evaluation = one New/Reset no-panic check, one consecutive tick pair, or one post-Stop watch / post-Stop tick judged; " +
 			"non-trivial = the life produced >= 1 judged tick pair or a completed post-Stop watch; distinct = by (d, jitter, phases, offsets rounded to 50us). " +
 			"Group pool: round = one SleepContext whose context ends at d + delta (delta swept over -30..+30 us; cancel by time.AfterFunc or a hidden WithTimeout) followed on the same goroutine by 2-3 plain sleeps, " +
-			"on up to 12 goroutines next to 3 busy ones; evaluation = one call judged (nil => elapsed >= d; the plain sleeps must return nil). " +
+			"on up to 12 goroutines next to 3 busy ones; evaluation = one call judged (nil => elapsed >= d; ctx.Err() demanded when cancel returned before start + d; the plain sleeps must return nil). " +
+			"Group ended-first: already-ended contexts x d in {1ns..1ms} called from 64 goroutines at once, and contexts cancelled by a spinning goroutine at a swept fraction of d in {5..80us}; evaluation = one call judged. " +
 			"Group lag: trial = one ticker (d 100-300 us, jitter 0) that nobody reads, stopped at its second firing (aimed by the pause point ticker.fire plus 0-5 us, or by time), channel emptied right after Stop, " +
 			"looked at again >= 20 ms later; evaluation = one such look.")
 		r.Assume("elapsed time is judged only as a lower bound (nil from SleepContext => elapsed >= d; tick timestamps >= d - jitter apart); no result is ever judged for arriving late")
 		r.Assume("scenario classes stay away from deadline ~ d: 'exactly when the deadline is closer than d' is decided only for deadline <= d/8 (must be DeadlineTooSoonError) and deadline >= 2000 d (must not be); in the latter class an error is judged only if the whole scenario, from before the context was made, took less than deadline - d")
-		r.Assume("an already-cancelled context with 0 < d <= 1 ms: nil after >= d is recorded, not judged (the timer may win the select when the goroutine is descheduled for >= d); with d >= 1 min the result must be ctx.Err()")
+		r.Assume("'returns the context's error if the context ends first' is judged for every d > 0: a stamp t0 is taken before SleepContext is called, the party that ends the context stamps tc after cancel() has returned (tc = 0 for a context that had already ended; for an expiry a watcher stamps after it has seen <-ctx.Done()); if tc - t0 < d the context ended first (the timer is armed after t0 and cannot fire before t0 + d) and the result must be ctx.Err(); otherwise nil (after >= d) and ctx.Err() are both accepted")
 		r.Assume("a context whose deadline has already expired: with d >= 1 h the result must be DeadlineTooSoonError (the deadline is closer than d by any reading, for every d up to MaxInt64 and every deadline back to time.Time{}); with d < 1 h ctx.Err() = context.DeadlineExceeded is accepted as well (both clauses of the statement apply)")
 		r.Assume("'the context's error' is ctx.Err() (context.Canceled / context.DeadlineExceeded), not context.Cause(ctx): contexts ended through WithCancelCause / WithTimeoutCause / WithDeadlineCause with an application cause (also one that wraps the sentinel) must not get the cause back")
 		r.Assume("a deadline-hiding context wrapper (Deadline() reports none, Done/Err/Value come from a WithTimeoutCause parent) is a legitimate context: it is the only way to let a sleep be ended by an expiry without generating deadline ~ d")
 		r.Assume("tick pairs that may straddle a Reset are held to the smaller of the d - jitter bounds of every regime that can have been in force between the two timestamps")
 		r.Assume("'no tick is sent after Stop returns' is refuted only by a tick whose own timestamp (taken inside the callback before the send) is later than a stamp taken after Stop returned; a tick that was already in the 1-slot channel is legitimate")
 		r.Assume("drain-then-silence: when Stop returns the 1-slot channel holds at most one tick; after it has been taken out, any further tick received from that ticker was sent after Stop returned, whatever timestamp it carries (also: two or more ticks received after Stop returned)")
-		r.Assume("a SleepContext call whose context ends within 30 us of d may return nil (after >= d) or ctx.Err(): that call is not judged beyond the lower bound; the plain sleeps that follow it are")
 		r.Assume("that ticks keep arriving at all (liveness) is not part of the statement: a phase that sees no tick for 5 s is counted, not judged")
 
 		for _, g := range []struct {
 			name string
 			run  func(*vkit.Report)
 		}{{"regress", regress}, {"sleep+extreme", sleepCases}, {"gate", gateCases}, {"stress", stressCases}, {"ticker-extreme", tickerExtremes},
-			{"pool", poolCases}, {"lag", lagCases}, {"outside", outside}} {
+			{"pool", poolCases}, {"ended-first", endedFirstCases}, {"lag", lagCases}, {"outside", outside}} {
 			t := time.Now()
 			g.run(r)
 			r.Max("wall ms per group (slowest variant)", g.name, int(time.Since(t)/ms))
@@ -77,6 +77,8 @@ func main() {
 		r.Floor("SleepContext on contexts ended with an application cause different from ctx.Err()", r.Table("sleep", "contexts that ended with an application cause different from ctx.Err()"), 40)
 		r.Floor("SleepContext with an expired deadline and d >= 1h", r.Table("sleep", "expired deadline, d >= 1h: DeadlineTooSoonError demanded"), 48)
 		r.Floor("SleepContext with d >= 1<<62 ns", r.Table("sleep", "calls with d >= 1<<62 ns"), 60)
+		r.Floor("already-ended context with d <= 1 ms, called under load", r.Table("ended-first", "already-ended context: calls judged"), 50000)
+		r.Floor("cancel mid-sleep with d <= 80 us: trials in which cancel() returned before start + d", r.Table("ended-first", "cancel mid-sleep: trials with cancel returned before start+d (judged strictly)"), 2000)
 		r.Floor("pool rounds (SleepContext ended at d+-30us, then plain sleeps)", r.Table("pool", "rounds"), 2000)
 		r.Floor("lagging-receiver tickers stopped at the second firing and looked at again", r.Table("lag", "stopped tickers looked at again >= 20 ms after the drain"), 5000)
 		r.Floor("JitterTicker lives with d >= MaxInt64/4", r.Table("ticker", "lives with d >= MaxInt64/4"), 8)
@@ -112,7 +114,7 @@ var className = [nClasses]string{
 	"deadline >= 2000 d, d <= 5ms",
 	"d = 1h, deadline 2h+, cancelled after <= 20ms",
 	"already cancelled, d >= 1min",
-	"already cancelled, 0 < d <= 1ms (lenient)",
+	"already cancelled, 0 < d <= 1ms",
 	"cancelled mid-sleep, d >= 10min",
 	"deadline already expired (d >= 1h: DeadlineTooSoonError demanded)",
 }
@@ -430,7 +432,7 @@ func sleepCase(c *vkit.Case, class int, fix *sleepFix) {
 			m.name += ", cancelled"
 		}
 	case clCancelledSmall:
-		d = vkit.Pick(rnd, []time.Duration{1, 1 * us, 100 * us, 1 * ms})
+		d = vkit.Pick(rnd, []time.Duration{1, 100, 1 * us, 5 * us, 19 * us, 50 * us, 100 * us, 1 * ms})
 		m = cancelCtx(shapeSeed)
 		m.end()
 		m.name += ", cancelled"
@@ -570,13 +572,13 @@ func sleepCase(c *vkit.Case, class int, fix *sleepFix) {
 			bad(sig, fmt.Sprintf("%s returned %s%s after %s; the context ended long before d, expected ctx.Err() = %s", desc, errString(out.err), note, out.elapsed, wantName))
 		}
 	case clCancelledSmall:
-		switch {
-		case isWant(out.err):
-		case out.err == nil:
-			r.Count("outside the statement / lenient (not judged)", "already-cancelled ctx, 0 < d <= 1ms: nil after >= d (timer won the select)", 1)
-		default:
+		// The context had ended before the call: it ended first for every d > 0, however small.
+		if !isWant(out.err) {
 			sig, note := ctxErrSig(out.err)
-			bad(sig, fmt.Sprintf("%s returned %s%s; expected ctx.Err() = context.Canceled", desc, errString(out.err), note))
+			if out.err == nil {
+				sig = "nil-although-context-ended-first"
+			}
+			bad(sig, fmt.Sprintf("%s returned %s%s after %s; the context had ended before the call, expected ctx.Err() = context.Canceled", desc, errString(out.err), note, out.elapsed))
 		}
 	case clExpired:
 		switch {
